@@ -13,15 +13,19 @@ from .. import gens_c03 as g3
 from ..oracles.nlist_ref import Rebin, periodic_distances, distance_rounding, is_small_dyadic
 
 RULE = ("a cell (LAMMPS triangular form, lengths 1-12, tilts up to 1.5 lengths, or one of the 7 crystal families with a in 2-9; half of them rigidly "
-        "rotated, half with non-zero origin), one of the 8 pbc triples, atoms inside the cell placed by one of seven "
-        "placement kinds (sparse 1-6 atoms / targeted pair near opposite faces of a periodic axis / atoms on faces, edges, "
+        "rotated, half with non-zero origin; about 1 in 4 acted on exactly by a signed permutation of the Cartesian axes, a renaming and a reversal of "
+        "cell vectors: lower-triangular cells with negative diagonal entries, upper-triangular, axis-permuted and left-handed cells), one of the 8 pbc triples, atoms inside the cell placed by one of eight "
+        "placement kinds (near: pairs 1e-12..5e-3 (relative) off the cutoff, almost coincident atoms, atoms almost on a face with a partner across it, in cells "
+        "with tilts / length differences of the same tiny sizes - one system holds separations over 8+ decades; sparse 1-6 atoms / targeted pair near opposite faces of a periodic axis / atoms on faces, edges, "
         "corners / atoms within 1e-12..1e-6 cutoff of a bin edge / jittered lattice up to 60 atoms / 40-70 atoms "
         "inside one cutoff-sized cube / dyadic orthogonal cell with one pair exactly at or 2^-20 off the cutoff), cutoff "
         "0.05-1.6 of the smallest perpendicular width, initialsize and "
         "deltasize 1-25 or default; every number is handed over in one of its documented forms (positions: float64 array / "
         "read-only array (setflags, frombuffer, memmap) / Fortran-ordered / strided view / list / tuple, dyadic systems also "
-        "float32 and - when all positions are whole numbers - integer-typed array / list / tuple; cutoff float / numpy.float64 / "
-        "int; sizes int / numpy ints; pbc list / tuple / bool array).  LENGTH UNIT: the whole geometric input of a system (cell vectors, origin, positions, cutoff) is "
+        "float32 and - when all positions are whole numbers - integer-typed array / list / tuple; every kind also big-endian float64 and, where "
+        "the numbers are held exactly, float16 / big-endian float32 / int8 .. uint64 / big-endian integers / bool; cutoff float / numpy.float64 / "
+        "int / numpy.longdouble / float32 / float16 / int8 .. uint64 scalars where exact; sizes int / numpy ints of every width, signed and unsigned; "
+        "pbc list / tuple / bool array).  LENGTH UNIT: the whole geometric input of a system (cell vectors, origin, positions, cutoff) is "
         "expressed in a unit 10^k times the angstrom-like one, k in -12..+6 (1e-10 = SI metres favoured, exactly 1 in about half of the systems; "
         "the dyadic kind uses powers of two 2^-40..2^30, 2^-33 favoured, so that its arithmetic stays exact); the two systems of a history draw "
         "their units independently (one object is handed an angstrom-scale and a metre-scale system in turn).  history: ONE NeighborList object (created by the "
@@ -29,10 +33,15 @@ RULE = ("a cell (LAMMPS triangular form, lengths 1-12, tilts up to 1.5 lengths, 
         "cutoff and sizes / load() of another list's file (path, stream, BytesIO, content) / dump-and-load of itself / in-place "
         "edit of the system (pbc setter, positions rolled, an atom moved onto another, whole-property assignment) followed by "
         "build() - read in varying orders or not at all between the steps, and is judged against the reference after every "
-        "step; a second list built at the start must still read the same at the end.  Non-trivial: (at least one pair is expected AND (a pair is realised only through "
+        "step; a second list built at the start must still read the same at the end.  ledger: 3-7 calls (nlist(), NeighborList(), System.neighborlist(), "
+        "objects left unread, lists read from the dump of another, build() on an existing object, the same call again) on two systems, interleaved with the "
+        "caller overwriting what it handed in (position array given to Atoms, arrays given to Box, pbc object, the setters) and what it was handed (array of "
+        "nlist(), arrays behind an object); every result is judged when first read and compared bit for bit with a copy after every later step.  combos: "
+        "enumerated creation routes x operation sequences on one object, and pairs of routes x caller-side operations on two results, on three fixed systems.  Non-trivial: (at least one pair is expected AND (a pair is realised only through "
         "a periodic image OR a bin holding only periodic images exists, by independent re-binning, OR a row outgrew "
         "initialsize OR a bin received 40 or more entries)) OR a pair lies exactly at the cutoff in exact arithmetic; sizes: a row outgrew the drawn initialsize; file/api: at "
-        "least one pair is expected; history: a step on an object that had been read replaced its lists by different ones")
+        "least one pair is expected; history: a step on an object that had been read replaced its lists by different ones; "
+        "ledger: at least two results were re-verified after a later call and one of them has a pair")
 ASSUMPTIONS = ["numpy is correct",
                "the periodic distance 'in the sense of C02' is the shortest of the 27 (9/3/1) candidates with shifts "
                "-1,0,+1 per periodic direction (what C02 states for dmag), computed here by an independent numpy loop",
@@ -43,12 +52,20 @@ ASSUMPTIONS = ["numpy is correct",
                "the largest coordinate, inside-the-cell test and face labels in relative coordinates), none is a length in working units; a power-of-two "
                "change of the length unit changes no rounding decision (no underflow: squares are above 1e-30)",
                "Box and Atoms store the numbers they are given (C01, C06); the cell and positions are read back from "
-               "the System as data for the reference computation"]
+               "the System as data for the reference computation",
+               "ledger: of an array of coordination numbers + neighbours only the documented part (first column, the first coord entries of a row) "
+               "is compared; the arrays a NeighborList's properties handed out leave the ledger when build() / load() is called on that object "
+               "('the underlying array': whether they follow is not stated); after the caller overwrote in place an object it had handed to "
+               "Atoms / System, what the system then holds is read back as data (C06's matter), the box must be unchanged",
+               "a left-handed cell (three independent vectors in any order / direction) is a cell: nothing in Box, System or nlist restricts the handedness"]
 LEVEL_TEXT = ("Randomised exploration of cells x pbc x atom placements x cutoffs x storage sizes x input forms x length units (1e-12..1e6 of the angstrom-like one) (about 20 000 systems "
               "quick, 480 000 thorough); every list is compared entry by entry with an independent O(N^2 * 27) "
               "reference; sizes / file / API variants are compared with each other; histories of build / load / in-place "
-              "system edits on one NeighborList object are judged by the same reference after every step.")
-TECHNIQUE = "independent all-pairs 27-image reference; independent re-binning to classify cases and key the ghost-only-bin loss; differential comparison across storage sizes, file round trip and entry points"
+              "system edits on one NeighborList object are judged by the same reference after every step; a ledger of everything handed out for two systems "
+              "is re-verified bit for bit after every later call and every caller-side overwrite (about 1 100 quick / 30 000 thorough ledgers); creation route x "
+              "operation pairs (thorough: triples) and route pairs x caller operations are enumerated (2 030 / 4 820 cases).  Near-threshold pairs "
+              "(2e-9 .. 5e-3 relative off the cutoff), exact symmetry images of the cells and narrow / unsigned / big-endian storage dtypes are part of every clause.")
+TECHNIQUE = "independent all-pairs 27-image reference; independent re-binning to classify cases and key the ghost-only-bin loss; differential comparison across storage sizes, file round trip and entry points; result ledger with caller-side overwrites; enumerated route / operation combinations"
 WALL = {'quick': 55, 'thorough': 560}
 
 KEY_GHOST = 'C03:lost-pair:adjacent-only-through-ghost-only-bin'
@@ -1032,10 +1049,10 @@ def _edit2(m, step, labels):
     labels.add('edit_handed')
 
 
-_led_kinds = st.sampled_from(['sparse', 'targeted', 'targeted', 'faces', 'dense', 'dense', 'dyadic', 'near', 'cluster'])
-_LED_SYSTEMS = {k: g3.systems(kind=k) for k in ('sparse', 'targeted', 'faces', 'dense', 'dyadic', 'near', 'cluster')}
+_led_kinds = st.sampled_from(['sparse', 'sparse', 'targeted', 'targeted', 'faces', 'faces', 'dense', 'dyadic', 'dyadic', 'near', 'near', 'binedge'])
+_LED_SYSTEMS = {k: g3.systems(kind=k) for k in ('sparse', 'targeted', 'faces', 'dense', 'dyadic', 'near', 'binedge')}
 _led_op = st.fixed_dictionaries({
-    'op': st.sampled_from(['fn', 'fn', 'ctor', 'method', 'lazy', 'lazy', 'load', 'load', 'rebuild', 'mutin', 'mutin', 'mutout', 'mutout', 'again']),
+    'op': st.sampled_from(['fn', 'fn', 'ctor', 'method', 'lazy', 'lazy', 'load', 'load', 'load', 'rebuild', 'mutin', 'mutin', 'mutout', 'mutout', 'again']),
     'sys': st.integers(0, 1),
     'fac': st.sampled_from([0.5, 0.75, 1.0, 1.0, 1.0, 1.25, 1.5]),
     'sizes': st.one_of(st.none(), st.none(), st.tuples(st.integers(1, 6), st.integers(1, 4)).map(list)),
@@ -1085,7 +1102,8 @@ def oracle_ledger(case):
             sizes, how, kind = op['sizes'], int(op['how']), op['op']
             objs = led.live(('object',))
             live = led.live()
-            if kind in ('load', 'rebuild') and not objs:
+            fresh_source = kind == 'load' and bool((how // 4) % 3)
+            if (kind == 'rebuild' or (kind == 'load' and not fresh_source)) and not objs:
                 kind = 'ctor'
             if kind in ('mutout', 'again') and not live:
                 kind = 'fn'
@@ -1095,8 +1113,11 @@ def oracle_ledger(case):
                 call(('ctor', 'method')[how % 2], m, cutoff, sizes, read=False)
             elif kind == 'load':
                 # another source every time (a loaded object is a source only where there is nothing else)
-                built = [x for x in objs if x.route is not None] or objs
-                src = built[(op['a'] + sum(1 for x in led.entries if x.route is None)) % len(built)]
+                if fresh_source:
+                    src = call('ctor', m, cutoff, sizes)          # a list made for the purpose (it stays in the ledger as well)
+                else:
+                    built = [x for x in objs if x.route is not None] or objs
+                    src = built[(op['a'] + sum(1 for x in led.entries if x.route is None)) % len(built)]
                 if not src.read:
                     led.first_read(src, op['b'])
                 path = os.path.join(tmp, 'nlist_%d.txt' % n)
@@ -1128,6 +1149,9 @@ def oracle_ledger(case):
                 led.rebuilt(e, 'build() for system %d, cutoff %.17g on the object of [%s]' % (models.index(m), cutoff, e.what), m.snapshot(cutoff),
                             ('ctor', m, cutoff, sizes), m, read=(how // 2) % 2 == 0)
             elif kind == 'mutin':
+                pending = [e for e in led.entries if e.alive and not e.read and e.model is not None]
+                if pending and how % 3:
+                    m = pending[-1].model                 # the system an object was built for that has not been read yet
                 for e in led.entries:
                     if e.alive and not e.read and e.model is m:
                         e.mutated = True
@@ -1229,13 +1253,16 @@ def combo_cases(tier):
         for r2 in _COMBO_ROUTES:
             for second in _COMBO_SECOND:
                 for other in (0, 1):
-                    for how in ((0, 1, 2) if second == 'mutout' else (0, 2) if second == 'rebuild' else (0,)):
-                        base = {'fac': 1.0, 'sizes': None, 'how': how, 'edit': 'handed' if how else 'pbc', 'a': 0, 'b': 0, 'pbc': [True, True, False]}
-                        ops = [dict(base, op='ctor', sys=0), dict(base, op='ctor', sys=1, fac=1.25)] if 'load' in (r1, r2) else []   # something to dump
-                        ops += [dict(base, op=r1, sys=0, a=0), dict(base, op=r2, sys=other, a=0 if r1 == 'load' else 1), dict(base, op=second, sys=1 - other, a=len(ops), b=len(ops))]
-                        ops.append(dict(base, op='fn', sys=0))
-                        cases.append({'family': 'ledger', 'systems': [fixed[n % 3], fixed[(n + 1) % 3]], 'ops': ops})
-                        n += 1
+                    for how in ((0, 1, 2) if second == 'mutout' else (0, 2) if second == 'rebuild' else (0, 1) if second == 'mutin' else (0,)):
+                        for target in (0, 1):                  # the operation acts on the first / on the second of the two results
+                            base = {'fac': 1.0, 'sizes': None, 'how': how, 'edit': 'handed' if how else 'pbc', 'a': 0, 'b': 0, 'pbc': [True, True, False]}
+                            ops = [dict(base, op='ctor', sys=0), dict(base, op='ctor', sys=1, fac=1.25)] if 'load' in (r1, r2) else []   # something to dump
+                            k = len(ops) + target
+                            ops += [dict(base, op=r1, sys=0, a=0), dict(base, op=r2, sys=other, a=0 if r1 == 'load' else 1),
+                                    dict(base, op=second, sys=(0, other)[target] if second == 'mutin' else 1 - other, a=k, b=k)]
+                            ops.append(dict(base, op='fn', sys=0))
+                            cases.append({'family': 'ledger', 'systems': [fixed[n % 3], fixed[(n + 1) % 3]], 'ops': ops})
+                            n += 1
     return cases
 
 
@@ -1251,41 +1278,54 @@ def oracle_combos(case):
 
 
 CLAUSES = [
-    Clause('exact', oracle_exact, g3.systems, quick=10000, thorough=330000,
+    Clause('exact', oracle_exact, g3.systems, quick=8500, thorough=330000,
            min_share={'nt': 0.3, 'has_pairs': 0.3, 'ghost_only_bin': 0.35, 'image_pair': 0.15, 'grew_rows': 0.08,
                       'bin_grew': 0.025, 'pair_exactly_at_cutoff': 0.012, 'pbc_mixed': 0.3, 'rotated': 0.18,
                       'tilted': 0.2, 'cutoff_gt_width': 0.04, 'own_image_within_cutoff': 0.015, 'kind_targeted': 0.1,
                       'kind_binedge': 0.07, 'on_face': 0.2, 'pos_readonly_stored': 0.09, 'pos_noncontiguous_stored': 0.04,
                       'pos_sequence': 0.035, 'scale_1': 0.25, 'scaled': 0.2, 'scale_1e-10': 0.06, 'scale_le_1e-8': 0.12,
-                      'scale_large': 0.04, 'exact_scaled': 0.025},
+                      'scale_large': 0.04, 'exact_scaled': 0.025,
+                      # cross-pollination round (half of the observed shares)
+                      'kind_near': 0.055, 'near_cut': 0.08, 'near_cut_le_1e-6': 0.05, 'near_cut_inside': 0.03, 'near_cut_outside': 0.05,
+                      'near_cut_image': 0.022, 'near_coincident': 0.024, 'near_face_le_1e-6': 0.03, 'decades': 0.008, 'tiny_tilt': 0.026,
+                      'sym': 0.12, 'sym_negdiag': 0.06, 'sym_upper': 0.011, 'sym_mixed': 0.027, 'lefthanded': 0.05,
+                      'pos_bigendian': 0.045, 'pos_narrow_int': 0.005, 'pos_narrow_float': 0.008, 'cutoff_narrow_float': 0.045,
+                      'cutoff_narrow_int': 0.004, 'sizes_narrow_int': 0.11},
            desc='every list equals the independent reference {j != i : shortest of the 27 candidates < cutoff}; strictly '
                 'ascending, no self entry, symmetric, coord = length = first column; for every input form'),
-    Clause('sizes', oracle_sizes, sizes_cases, quick=2000, thorough=55000,
+    Clause('sizes', oracle_sizes, sizes_cases, quick=1700, thorough=55000,
            min_share={'nt': 0.15, 'grew_twice': 0.1, 'size_one': 0.2, 'pos_readonly_stored': 0.09,
-                      'scale_1': 0.25, 'scaled': 0.2, 'scale_1e-10': 0.06, 'scale_le_1e-8': 0.11, 'scale_large': 0.04},
+                      'scale_1': 0.25, 'scaled': 0.2, 'scale_1e-10': 0.06, 'scale_le_1e-8': 0.11, 'scale_large': 0.04,
+                      'pos_bigendian': 0.04, 'sizes_narrow_int': 0.15},
            desc='identical lists for default and drawn initialsize/deltasize (both, and each alone), and for the default again afterwards'),
-    Clause('file', oracle_file, file_cases, quick=1800, thorough=38000,
+    Clause('file', oracle_file, file_cases, quick=1700, thorough=38000,
            min_share={'nt': 0.3, 'ragged': 0.15, 'has_empty_row': 0.25, 'two_digit_ids': 0.08, 'pos_readonly_stored': 0.07,
-                      'scale_1': 0.25, 'scaled': 0.2, 'scale_1e-10': 0.06, 'scale_le_1e-8': 0.12, 'scale_large': 0.04},
+                      'scale_1': 0.25, 'scaled': 0.2, 'scale_1e-10': 0.06, 'scale_le_1e-8': 0.12, 'scale_large': 0.04,
+                      'pos_bigendian': 0.04, 'sizes_narrow_int': 0.12},
            desc='dump then NeighborList(model=path | open binary stream | BytesIO | content string) and System.neighborlist(model=): '
                 'identical lists; second dump identical text'),
-    Clause('api', oracle_api, api_cases, quick=1600, thorough=22000,
+    Clause('api', oracle_api, api_cases, quick=1500, thorough=22000,
            min_share={'nt': 0.28, 'via_function': 0.12, 'via_build': 0.1, 'positional_arguments': 0.17, 'pos_readonly_stored': 0.07,
-                      'scale_1': 0.25, 'scaled': 0.2, 'scale_1e-10': 0.06, 'scale_le_1e-8': 0.12, 'scale_large': 0.04},
+                      'scale_1': 0.25, 'scaled': 0.2, 'scale_1e-10': 0.06, 'scale_le_1e-8': 0.12, 'scale_large': 0.04,
+                      'pos_bigendian': 0.04, 'sizes_narrow_int': 0.12},
            desc='System.neighborlist, nlist(), NeighborList.build (positional and keyword) give the same lists as NeighborList(system=, cutoff=); system untouched'),
-    Clause('history', oracle_history, history_cases, quick=1400, thorough=30000,
+    Clause('history', oracle_history, history_cases, quick=1200, thorough=30000,
            min_share={'nt': 0.17, 'replaced_after_read': 0.28, 'replaced_other_natoms': 0.15, 'read_before_first_step': 0.25,
                       'op_load': 0.15, 'op_edit': 0.13, 'op_selfload': 0.06, 'unjudged_step': 0.09, 'pos_readonly_stored': 0.12,
-                      'mixed_scales': 0.25, 'scaled': 0.3, 'scale_1e-10': 0.1, 'scale_le_1e-8': 0.19, 'scale_large': 0.08},
+                      'mixed_scales': 0.25, 'scaled': 0.3, 'scale_1e-10': 0.1, 'scale_le_1e-8': 0.19, 'scale_large': 0.08,
+                      'pos_bigendian': 0.09, 'sizes_narrow_int': 0.18},
            desc='one NeighborList object through build / load / dump-load / in-place system edits, read in varying orders: after every '
                 'step it equals the independent reference for what it was last given; an untouched second list stays as it was'),
-    Clause('ledger', oracle_ledger, ledger_cases, quick=1400, thorough=30000,
-           min_share={},
+    Clause('ledger', oracle_ledger, ledger_cases, quick=1100, thorough=30000,
+           min_share={'nt': 0.35, 'ledger': 0.45, 'ledger_mixed_counts': 0.19, 'ledger_ge_4': 0.19, 'ledger_after_caller_change': 0.13,
+                      'loaded_different_alive': 0.03, 'unread_then_mutated': 0.024, 'again_after_overwrite': 0.14, 'overwrote_array': 0.05,
+                      'overwrote_object': 0.12, 'edit_handed': 0.045, 'edit_handed_aliased': 0.033, 'repeated_call': 0.07, 'op_rebuild': 0.065,
+                      'read_at_the_end': 0.18, 'pos_bigendian': 0.07, 'pos_readonly_stored': 0.12, 'scaled': 0.3},
            desc='everything handed out by nlist() / NeighborList / System.neighborlist / a file for two systems is judged by the reference when first '
                 'read and compared bit for bit (documented part) with a copy after every later call; the caller overwrites what it handed in '
                 'and what it was handed: no other result moves, an unread object describes the system as it was, the same call again is right'),
     Clause('combos', oracle_combos, enumerate=combo_cases,
-           min_share={},
+           min_share={'nt': 0.2, 'family_history': 0.25, 'family_ledger': 0.08},
            desc='enumerated: 5 creation routes x every ordered pair (thorough: triple) of 7 operations on one object, read after every step or '
                 'only at the end; 5 x 5 routes handing out two results x 5 caller-side operations on the first, same and different systems'),
 ]
